@@ -349,7 +349,9 @@ pub fn run(seed: u64, ntraces: usize) {
                     let issuing = known.map(|t| t.token.is_none()).unwrap_or(false) && !g.pend.iter().any(|p| matches!(&p.kind, PKind::Issue(_, tm) if Some(tm) == known.map(|t| &t.tm)));
                     let egld = if !scripted && r.chance(1, 5) { *r.pick(&[0u64, ISSUE_COST, 2 * ISSUE_COST, ISSUE_COST + 1, ISSUE_COST - 1, ISSUE_COST + ISSUE_COST / 2]) } else if issuing { ISSUE_COST } else { 0 };
                     let name = if !scripted && r.chance(1, 10) { vec![] } else { b"MyToken".to_vec() };
-                    let (ok, rets, dep) = g.its_tx("deployToken", &deployer, "deployInterchainToken", vec![salt.clone(), name.clone(), b"MTK".to_vec(), vec![18], big(supply), minter.clone()], egld, &[],
+                    // the endpoint takes EGLD only (the issue cost): an ESDT payment must be refused, not kept
+                    let esdt_pay: Vec<(Vec<u8>, u64, BigUint)> = if !scripted && egld == 0 && r.chance(1, 8) { vec![(tok.clone(), 0u64, bn(5))] } else { vec![] };
+                    let (ok, rets, dep) = g.its_tx("deployToken", &deployer, "deployInterchainToken", vec![salt.clone(), name.clone(), b"MTK".to_vec(), vec![18], big(supply), minter.clone()], egld, &esdt_pay,
                         json!({"salt": hx(&salt), "name": hx(&name), "symbol": hx(b"MTK"), "decimals": 18, "supply": supply.to_string(), "minter": hx(&minter)}));
                     if ok { if let Some(tm) = dep { g.toks.push(Tok { id: rets.last().unwrap().clone(), kind: "native", tm, token: None, salt, deployer, supply, minter, custody: 0 }); } }
                 }
